@@ -113,6 +113,25 @@ def rule_stats(built, rels, stats):
                 stats.c[f"rule:{node[0]}-on-[{state}]"] += 1
 
 
+def shift_calcs(prog, memo):
+    """The same program with 1 added to every calculated expression (sharing of sub-programs preserved)."""
+    from vf.core.prog import children
+
+    if id(prog) in memo:
+        return memo[id(prog)]
+    if prog[0] == "leaf":
+        out = prog
+    else:
+        kids = children(prog)
+        new = tuple(shift_calcs(c, memo) for c in kids)
+        rest = tuple(prog[1 + len(kids) :])
+        if prog[0] == "calc":
+            rest = (rest[0], ("add", rest[1], ("lit", 1))) + rest[2:]
+        out = (prog[0],) + new + rest
+    memo[id(prog)] = out
+    return out
+
+
 def run_case(case, stats):
     universe, leaves, prog = case
     env = Env(leaves)
@@ -142,6 +161,20 @@ def run_case(case, stats):
             res = check_relation(env, node, rel, leaves, memo, rels, stats, "root" if node is prog else "prefix")
             if node is prog:
                 root_res = (res, rel)
+        # sibling program: the same program with every calculation shifted by one, built and compiled with the *same*
+        # engine object and leaves.  Predicates, sort terms and projections above the calculations are value-equal to
+        # the original's, the columns they read are not - nothing an engine remembers from the first compilation may
+        # leak into the second.
+        if id(prog) in rels and "calc" in kinds(prog) and int(codec.digest(case)[:2], 16) % 3 == 0:
+            sib = shift_calcs(prog, {})
+            rels2 = {}
+            try:
+                build_all(sib, env, rels2)
+            except BuildError:
+                rels2 = {}
+            if id(sib) in rels2:
+                check_relation(env, sib, rels2[id(sib)], leaves, {}, rels2, stats, "sibling program (calculations shifted by one), same engine")
+                stats.c["sibling-programs"] += 1
         if root_res and root_res[0] is not None:
             res, rel = root_res
             ks = kinds(prog)
